@@ -99,6 +99,13 @@ type Outcome struct {
 	Sample     any      // short description for evidence
 	Evals      int      // executions inside the run (enumerations); 0 means 1
 	SubSigs    []uint64 // optional: distinct non-trivial sub-cases (enumerations)
+	Digest     string   // optional: digest of the run's output, compared across build variants
+}
+
+// Expecting is implemented by scenarios whose output digest is compared with
+// the one another build variant produced for the same scenario.
+type Expecting interface {
+	SetExpect(digest, from string)
 }
 
 func Violate(class, format string, args ...any) *Violation {
@@ -120,6 +127,7 @@ type Budget struct {
 	Runs    int
 	MaxWall time.Duration
 	Race    int // additional runs executed under the race-detector build (0 = none)
+	Cross   int // first N runs are re-executed by other build/CPU variants and their digests compared (0 = none)
 }
 
 // Prop is one property check.
@@ -390,20 +398,24 @@ type WorkerResult struct {
 	Done       bool           `json:"done"`
 	Variant    string         `json:"variant"`
 	LogHashes  map[int]string `json:"log_hashes,omitempty"`
+	Digests    map[int]string `json:"digests,omitempty"`
 }
 
 type Job struct {
-	Prop       string `json:"prop"`
-	Tier       string `json:"tier"`
-	BaseSeed   uint64 `json:"base_seed"`
-	Start      int    `json:"start"`
-	Stride     int    `json:"stride"`
-	Count      int    `json:"count"` // total runs of the batch (indices < Count)
-	MaxWallS   int    `json:"max_wall_s"`
-	Out        string `json:"out"`
-	Variant    string `json:"variant"`
-	ReplayDir  string `json:"replay_dir"`
-	KeepHashes bool   `json:"keep_hashes"`
+	Prop        string         `json:"prop"`
+	Tier        string         `json:"tier"`
+	BaseSeed    uint64         `json:"base_seed"`
+	Start       int            `json:"start"`
+	Stride      int            `json:"stride"`
+	Count       int            `json:"count"` // total runs of the batch (indices < Count)
+	MaxWallS    int            `json:"max_wall_s"`
+	Out         string         `json:"out"`
+	Variant     string         `json:"variant"`
+	ReplayDir   string         `json:"replay_dir"`
+	KeepHashes  bool           `json:"keep_hashes"`
+	KeepDigests int            `json:"keep_digests"`
+	Expect      map[int]string `json:"expect,omitempty"`
+	ExpectFrom  string         `json:"expect_from,omitempty"`
 }
 
 func HashString(s string) uint64 {
